@@ -380,6 +380,7 @@ Proof.
   - (* Pratt *) eapply (proj1 (pratt_ext _ IH g ops ctx n)); eauto.
   - (* GroupArr *) eapply group_sem_ext; eauto.
   - discriminate.
+  - (* WithState *) discriminate.
   - (* Skip *) injection H as <- <- <- <-. lia.
   - (* ExtWrap *)
     destruct (sem n g ctx p a) as [[[[[v1 p1] e1]|] [[q e0]|]]|] eqn:E1; try discriminate;
